@@ -741,6 +741,16 @@ class SimFS(object):
         if size != len(ofd.inode.data):
             self._mut(('trunc', ofd.inode.ino, size, self._now()))
 
+    def fd_chmod(self, fd, mode):
+        ofd = self._ofd(fd)
+        self._enter('fchmod', ofd.path)
+        self._mut(('chmod', ofd.inode.ino, mode & 0o7777))
+
+    def fd_sync(self, fd):
+        # everything in the journal counts as reaching the disk in order: fsync is a yield point only
+        ofd = self._ofd(fd)
+        self._enter('fsync', ofd.path)
+
     def flock(self, fd, flags):
         import fcntl
         ofd = self._ofd(fd)
